@@ -1,45 +1,84 @@
 # plan and claim for C07 (SM2 public-key encryption); J and both are injected by driver/plan.py
 _CFG = ["avx2", "avx", "noadx", "purego"]
 
+def _split(lines):
+    """the 32-bit jobs first: they are the slowest, so they must not wait for a free worker"""
+    return [ln for ln in lines if ln["variant"] == "ia32"] + [ln for ln in lines if ln["variant"] != "ia32"]
+
+
 PLAN = dict(
     level="exploration",
     rule="round trip: nested enumeration (repetition x message length 1..200,255,256,1000 x {content kind, message = mask so that C2 is "
          "all zero}) with key kind, ephemeral-scalar kind and content kind rotating; every case runs the 9 encryption variants "
          "against a scripted k and the 5 decryption entry points on every distinct ciphertext, plus a wrong key; constructed corner "
-         "cases (coordinates of C1 / of the shared point with a leading zero byte, scalars whose 1- or 2-byte mask is all zero, "
-         "structured k and d); tamper: one case = one valid ciphertext in one serialisation with every single-byte substitution "
-         "(^01 ^80 =00 =ff), every truncation and two extensions; convert: every converter chain of depth <= 3 from every layout; "
-         "hostile: hand-made invalid inputs by family; envelope: enveloped-key round trips, reference-built envelopes, mutants. "
+         "cases (coordinates of C1 / of the shared point with a leading zero byte, scalars whose 1- or 2-byte mask is all zero, runs "
+         "of 2..130 such scalars in a row, structured k and d); tamper: one case = one valid ciphertext in one serialisation with "
+         "every single-byte substitution (^01 ^80 =00 =ff), every truncation and two extensions; convert: every converter chain of "
+         "depth <= 3 from every layout; hostile: hand-made invalid inputs by family (plus, for the panic monitor only, invalid public "
+         "keys, option values outside the exported constants, key objects whose scalar is 0 or >= n); envelope: enveloped-key round "
+         "trips, reference-built envelopes, mutants; curves: round trips (9 lengths x {content, all-zero C2}), tamper sweeps of all 7 "
+         "serialisations and the hostile families on P-224, P-384 and P-521 keys; keyobj: one case = one history on one "
+         "*sm2.PrivateKey: every ordered pair of uses (5 decryption entry points + ParseEnvelopedPrivateKey) with and without "
+         "FromECPrivateKey on the same receiver in between, every constructor (8) x every first use followed by a damaged "
+         "ciphertext and a second use, random histories of 5-10 steps (use with a ciphertext for the current / a previous key / a "
+         "damaged one, re-key, refused re-key, Sign, MarshalEnvelopedPrivateKey of the object, Encrypt to the object's public key), "
+         "thorough: all triples of uses x re-key position; mixed: one case = one history of library calls played back to back in "
+         "one process: every ordered pair (A,B) of the 12 traffic classes {SM2, P-256, P-224, P-384, P-521 keys, direct sm3.Kdf} x "
+         "{4-7, 8+ KDF blocks} as A B A B with encryption and decryption alternating, and random histories of 40-60 steps "
+         "(encryptions, decryptions through all entry points, converters, KDF and hash calls of other input lengths) over two SM2 "
+         "key objects and 2-3 other curves in random order. "
          "distinct = distinct class keys (configuration | curve / length class / content / key kind / k kind, resp. serialisation, "
-         "chain start, family); the empty-message cases are trivial",
-    jobs=both("c07.roundtrip", _CFG + ["ia32"], shards=(3, 12), floor=400)
-    + both("c07.legacy", ["avx2", "purego"], shards=(2, 8), floor=200)
-    + both("c07.tamper", _CFG, shards=(3, 12), floor=60)
-    + both("c07.convert", _CFG + ["ia32"], shards=(2, 8), floor=100)
-    + both("c07.hostile", _CFG, shards=(1, 4), floor=20)
-    + both("c07.envelope", ["avx2", "noadx", "purego"], shards=(1, 4), floor=10),
+         "chain start, family, pair of uses / constructor / shape of the history, pair of traffic classes); the empty-message and "
+         "panic-monitor-only cases are trivial",
+    jobs=_split(
+        both("c07.roundtrip", _CFG + ["ia32"], shards=(3, 12), floor=400)
+        + both("c07.legacy", ["avx2", "purego"], shards=(2, 8), floor=200)
+        + both("c07.tamper", _CFG, shards=(3, 12), floor=60)
+        + both("c07.convert", _CFG, shards=(2, 8), floor=100) + [J("c07.convert", ["ia32"], "ia32", (3, 8), floor=100)]
+        + both("c07.hostile", _CFG, shards=(1, 4), floor=20)
+        + both("c07.envelope", ["avx2", "noadx", "purego"], shards=(1, 4), floor=10)
+        + both("c07.keyobj", _CFG, shards=(1, 6), floor=150) + [J("c07.keyobj", ["ia32"], "ia32", (2, 6), floor=150)]
+        + both("c07.mixed", _CFG + ["sse"], shards=(2, 8), floor=150)
+        + [dict(J("c07.mixed", ["ia32"], "ia32", (4, 12), floor=150), thorough_only=True)]  # 32-bit build: one-at-a-time KDF only
+        + [J("c07.curves", ["avx2"], "asm", (3, 8), floor=90)]
+        + [dict(J("c07.curves", ["purego"], "purego", (3, 8), floor=90), thorough_only=True)]),  # crypto/elliptic carries the path
     assumptions=[
         "harness/ref/sm2enc (GB/T 32918.4 over ref/ec big-integer affine arithmetic and ref/sm3) is right: it reproduces every "
         "intermediate value of the GM/T 0003.5 annex C encryption example before each run",
-        "for the legacy path the group arithmetic of the reference is crypto/elliptic P-256 (Go standard library)",
+        "for the legacy path the group arithmetic of the reference is crypto/elliptic P-224 / P-256 / P-384 / P-521 (Go standard "
+        "library), checked against the key pairs of RFC 6979 A.2.4-A.2.7 before each run",
+        "the key pair a *sm2.PrivateKey holds is the one its constructor or its last successful FromECPrivateKey call installed; "
+        "a call that returns an error changes nothing; assigning to exported fields of a live object is not a way of re-keying",
         "a decoder may refuse or take hybrid (06/07) C1 encodings and BER variants of the ASN.1 layout; only 04 / 02 / 03 and DER are demanded",
     ],
 )
 
 CLAIM = dict(
     text="Runtime monitoring of sm2.Encrypt/EncryptASN1, sm2.Decrypt, PrivateKey.Decrypt (nil, plain C1C3C2/C1C2C3, ASN.1 options), "
-         "the three layout converters and the enveloped-key helpers, on the SM2 curve (assembly with and without ADX/AVX2, and the "
-         "pure Go build) and on NIST P-256 keys (legacy path). For every message length 1..200, 255, 256, 1000 the library encrypts "
+         "the three layout converters and the enveloped-key helpers, on the SM2 curve (assembly with and without ADX/AVX2, the "
+         "pure Go build and the 32-bit build) and on NIST P-256, P-224, P-384 and P-521 keys (legacy path). For every message length "
+         "1..200, 255, 256, 1000 the library encrypts "
          "with an ephemeral scalar chosen by the harness, so every ciphertext is compared byte for byte with an independent "
          "GB/T 32918.4 implementation and then decrypted through every entry point; ciphertexts the library did not make - "
          "in particular those with an all-zero C2, with leading-zero coordinates, and for scalars whose mask is all zero (restart / "
-         "refusal) - are constructed by the reference and must be decrypted resp. refused. Every single-byte substitution and "
+         "refusal, also in runs up to and beyond the library's retry limit) - are constructed by the reference and must be decrypted "
+         "resp. refused. Every single-byte substitution and "
          "truncation of valid ciphertexts in every layout, off-curve / infinity / non-canonical C1, wrong keys and 0-3 byte inputs "
          "must give an error, never a panic and never another plaintext; the verdict on each mutant comes from the reference "
-         "decryption. Exploration over keys, scalars and message contents; the listed lengths, layouts, option combinations, "
-         "converter chains to depth 3 and single-byte mutants of the sampled ciphertexts are enumerated completely.",
+         "decryption. Histories: on one key object (every constructor; first, second and third use through every decryption entry "
+         "point and ParseEnvelopedPrivateKey; FromECPrivateKey on a used receiver, after which ciphertexts for the new key must be "
+         "decrypted and ciphertexts for the old key refused; refused ciphertexts and refused re-keying in between; signing, "
+         "enveloping and encrypting to the object's own public key as traffic) and in one process (keys on five curves, all "
+         "classes of KDF input and output length, encryption, decryption, converters, direct KDF and hash calls interleaved and "
+         "executed back to back with long-lived option objects and caller buffers that must come back unchanged; every ordered "
+         "pair of multi-lane KDF traffic classes in every SM3 dispatch tier), each step judged by the reference as above. "
+         "Exploration over keys, scalars, message contents and history shapes; the listed lengths, layouts, option combinations, "
+         "converter chains to depth 3, pairs of uses, pairs of traffic classes and single-byte mutants of the sampled ciphertexts "
+         "are enumerated completely.",
     design_ref="DESIGN.md 6 (C07)",
-    note="trusted: harness/ref/sm2enc, ref/ec, ref/sm3, ref/sm4 (envelope), crypto/elliptic P-256, math/big; message contents, keys and "
-         "scalars beyond the structured kinds are sampled",
-    technique="differential reference monitor with chosen ephemeral scalar + accept-set monitor over mutants + panic monitor",
+    note="trusted: harness/ref/sm2enc, ref/ec, ref/sm3, ref/sm4 (envelope), crypto/elliptic P-224/P-256/P-384/P-521, math/big; message "
+         "contents, keys, scalars beyond the structured kinds and the random histories are sampled; a failing random source is C12's, "
+         "first use from several goroutines C20's",
+    technique="differential reference monitor with chosen ephemeral scalar + accept-set monitor over mutants + history (object and "
+              "process) monitor + panic monitor",
 )
